@@ -41,7 +41,7 @@ TAGS = ['ProfileZero', 'OtherRoute', 'SameRoute', 'MixedSpectrum', 'MixedFlags']
 
 TIER = {
     # b2: (# two-mode libraries sampled, # three-mode libraries sampled, paths); b3: scenarios per pair, pairs
-    'quick': dict(b2_two=200, b2_three=280, b2_paths=1, b3_per_pair=23, b3_pairs='quick'),
+    'quick': dict(b2_two=180, b2_three=240, b2_paths=1, b3_per_pair=22, b3_pairs='quick'),
     'thorough': dict(b2_two=1176, b2_three=4000, b2_paths=3, b3_per_pair=64, b3_pairs='thorough'),
 }
 
